@@ -1310,8 +1310,16 @@ pub fn queen_swarm() -> BoxedStrategy<String> {
                     p.sq[s as usize] = Some((k, other));
                 }
             }
+            // legal material: a queen beyond the first is a promoted pawn
+            let mut mover_pawns_left = 9 - p.count(P::Queen, mover) as i32;
             for (s, mine) in pawns {
                 if p.sq[s as usize].is_none() && rank_of(s) != 0 && rank_of(s) != 7 {
+                    if mine {
+                        if mover_pawns_left <= 0 {
+                            continue;
+                        }
+                        mover_pawns_left -= 1;
+                    }
                     p.sq[s as usize] = Some((P::Pawn, if mine { mover } else { other }));
                 }
             }
